@@ -25,14 +25,25 @@ structure St where
   dials : Nat
   n : Nat
   pc : Nat → PC
+  /-- ghost: how often a published endpoint was retired (write failure, invalidation, expiry, …) -/
+  retires : Nat := 0
+  /-- ghost: dials that failed -/
+  fails : Nat := 0
 
 def init : St := { pool := false, lock := none, dials := 0, n := 0, pc := fun _ => .done false }
 
 /-- the shared part of a step: new pool flag, lock holder, dial count; thread t moves to p -/
 def upd (s : St) (pool : Bool) (lock : Option Nat) (dials : Nat) (t : Nat) (p : PC) : St :=
-  { pool := pool, lock := lock, dials := dials, n := s.n, pc := fun i => if i = t then p else s.pc i }
+  { pool := pool, lock := lock, dials := dials, n := s.n, pc := fun i => if i = t then p else s.pc i,
+    retires := s.retires, fails := s.fails }
 
-inductive Act | spawn | step (t : Nat)
+inductive Act
+  | spawn
+  | step (t : Nat)
+  /-- somebody retires the published endpoint (any time) -/
+  | retire
+  /-- the dial of thread t fails: no endpoint, the creation mutex is released -/
+  | failDial (t : Nat)
   deriving DecidableEq, Repr
 
 def step (s : St) : Act → Option St
@@ -50,6 +61,11 @@ def step (s : St) : Act → Option St
       | .dial => some (upd s s.pool s.lock (s.dials + 1) t .publish)
       | .publish => some (upd s true none s.dials t (.done true))
       | .done _ => none
+    else none
+  | .retire => if s.pool then some { s with pool := false, retires := s.retires + 1 } else none
+  | .failDial t =>
+    if t < s.n ∧ s.pc t = .dial then
+      some { upd s s.pool none (s.dials + 1) t (.done false) with fails := s.fails + 1 }
     else none
 
 inductive Reachable : St → Prop
@@ -69,7 +85,7 @@ def pendingDial (s : St) : Nat :=
 structure Inv (s : St) : Prop where
   holder : ∀ t, t < s.n → holds (s.pc t) = true → s.lock = some t
   locked : ∀ t, s.lock = some t → t < s.n ∧ holds (s.pc t) = true
-  count : s.dials = (if s.pool then 1 else 0) + pendingDial s
+  count : s.dials = s.retires + s.fails + (if s.pool then 1 else 0) + pendingDial s
   excl : s.pool = true → ∀ t, s.lock = some t → s.pc t = .recheck
 
 theorem inv_init : Inv init := by
@@ -93,7 +109,7 @@ theorem inv_free {s : St} (h : Inv s) (t : Nat) (p : PC) (h0 : holds (s.pc t) = 
     refine ⟨a, ?_⟩
     show holds (if u = t then p else s.pc u) = true
     rw [if_neg (hne u hl')]; exact b
-  · show s.dials = (if s.pool then 1 else 0) + pendingDial (upd s s.pool s.lock s.dials t p)
+  · show s.dials = s.retires + s.fails + (if s.pool then 1 else 0) + pendingDial (upd s s.pool s.lock s.dials t p)
     have : pendingDial (upd s s.pool s.lock s.dials t p) = pendingDial s := by
       unfold pendingDial
       show (match s.lock with | some u => if (if u = t then p else s.pc u) = PC.publish then 1 else 0 | none => 0) = _
@@ -125,7 +141,7 @@ theorem inv_step {s s' : St} (h : Inv s) (a : Act) (hs : step s a = some s') : I
       refine ⟨by show t < s.n + 1; omega, ?_⟩
       show holds (if t = s.n then PC.fast else s.pc t) = true
       rw [if_neg (hne t hl')]; exact b
-    · show s.dials = (if s.pool then 1 else 0) + _
+    · show s.dials = s.retires + s.fails + (if s.pool then 1 else 0) + _
       have : pendingDial { s with n := s.n + 1, pc := fun i => if i = s.n then PC.fast else s.pc i } = pendingDial s := by
         unfold pendingDial
         show (match s.lock with | some u => if (if u = s.n then PC.fast else s.pc u) = PC.publish then 1 else 0 | none => 0) = _
@@ -167,7 +183,7 @@ theorem inv_step {s s' : St} (h : Inv s) (a : Act) (hs : step s a = some s') : I
             have : some t = some u := hl'
             injection this with this; subst this
             exact ⟨ht, by show holds (if t = t then PC.recheck else s.pc t) = true; rw [if_pos rfl]; rfl⟩
-          · show s.dials = (if s.pool then 1 else 0) + _
+          · show s.dials = s.retires + s.fails + (if s.pool then 1 else 0) + _
             have : pendingDial (upd s s.pool (some t) s.dials t .recheck) = 0 := by
               unfold pendingDial
               show (if (if t = t then PC.recheck else s.pc t) = PC.publish then 1 else 0) = 0
@@ -194,7 +210,7 @@ theorem inv_step {s s' : St} (h : Inv s) (a : Act) (hs : step s a = some s') : I
               have := h.holder u hu hhu'; rw [hlock] at this; injection this with this
               exact absurd this.symm hut
           · intro u hl'; cases hl'
-          · show s.dials = (if true then 1 else 0) + 0
+          · show s.dials = s.retires + s.fails + (if true then 1 else 0) + 0
             rw [h.count, hpd, hp]
           · intro _ u hl'; cases hl'
         · have hp' : s.pool = false := by simpa using hp
@@ -210,7 +226,7 @@ theorem inv_step {s s' : St} (h : Inv s) (a : Act) (hs : step s a = some s') : I
             have hl'' : s.lock = some u := hl'
             rw [hlock] at hl''; injection hl'' with e; subst e
             exact ⟨ht, by show holds (if t = t then PC.dial else s.pc t) = true; rw [if_pos rfl]; rfl⟩
-          · show s.dials = (if false then 1 else 0) + _
+          · show s.dials = s.retires + s.fails + (if false then 1 else 0) + _
             have : pendingDial (upd s false s.lock s.dials t .dial) = 0 := by
               unfold pendingDial
               show (match s.lock with | some u => if (if u = t then PC.dial else s.pc u) = PC.publish then 1 else 0 | none => 0) = 0
@@ -236,7 +252,7 @@ theorem inv_step {s s' : St} (h : Inv s) (a : Act) (hs : step s a = some s') : I
           have hl'' : s.lock = some u := hl'
           rw [hlock] at hl''; injection hl'' with e; subst e
           exact ⟨ht, by show holds (if t = t then PC.publish else s.pc t) = true; rw [if_pos rfl]; rfl⟩
-        · show s.dials + 1 = (if s.pool then 1 else 0) + _
+        · show s.dials + 1 = s.retires + s.fails + (if s.pool then 1 else 0) + _
           have : pendingDial (upd s s.pool s.lock (s.dials + 1) t .publish) = 1 := by
             unfold pendingDial
             show (match s.lock with | some u => if (if u = t then PC.publish else s.pc u) = PC.publish then 1 else 0 | none => 0) = 1
@@ -262,11 +278,56 @@ theorem inv_step {s s' : St} (h : Inv s) (a : Act) (hs : step s a = some s') : I
             have := h.holder u hu hhu'; rw [hlock] at this; injection this with this
             exact absurd this.symm hut
         · intro u hl'; cases hl'
-        · show s.dials = (if true then 1 else 0) + 0
+        · show s.dials = s.retires + s.fails + (if true then 1 else 0) + 0
           rw [h.count, hpd, hpf]; rfl
         · intro _ u hl'; cases hl'
       | done c => rw [hpc] at hs; cases hs
     · rw [if_neg ht] at hs; cases hs
+
+  | retire =>
+    simp only [step] at hs
+    by_cases hp : s.pool = true
+    · rw [if_pos hp] at hs; injection hs with hs; subst hs
+      constructor
+      · intro t ht hh; exact h.holder t ht hh
+      · intro t hl; exact h.locked t hl
+      · show s.dials = s.retires + 1 + s.fails + (if false then 1 else 0) + pendingDial s
+        have hc := h.count
+        rw [hp] at hc
+        simp only [if_true] at hc
+        simp only [Bool.false_eq_true, if_false]
+        have : pendingDial { s with pool := false, retires := s.retires + 1 } = pendingDial s := rfl
+        omega
+      · intro hpp; cases hpp
+    · rw [if_neg hp] at hs; cases hs
+  | failDial t =>
+    simp only [step] at hs
+    by_cases hc : t < s.n ∧ s.pc t = .dial
+    · rw [if_pos hc] at hs; injection hs with hs; subst hs
+      obtain ⟨ht, hpc⟩ := hc
+      have hlock : s.lock = some t := h.holder t ht (by rw [hpc]; rfl)
+      have hpd : pendingDial s = 0 := by unfold pendingDial; rw [hlock]; simp [hpc]
+      have hpf : s.pool = false := by
+        cases hp : s.pool with
+        | false => rfl
+        | true => have := h.excl hp t hlock; rw [hpc] at this; cases this
+      constructor
+      · intro u hu hhu
+        have hhu' : holds (if u = t then PC.done false else s.pc u) = true := hhu
+        by_cases hut : u = t
+        · rw [if_pos hut] at hhu'; cases hhu'
+        · rw [if_neg hut] at hhu'
+          have := h.holder u hu hhu'; rw [hlock] at this; injection this with this
+          exact absurd this.symm hut
+      · intro u hl'; cases hl'
+      · show s.dials + 1 = s.retires + (s.fails + 1) + (if s.pool then 1 else 0) + 0
+        have hcnt := h.count
+        rw [hpd, hpf] at hcnt
+        rw [hpf]
+        simp only [Bool.false_eq_true, if_false] at hcnt ⊢
+        omega
+      · intro _ u hl'; cases hl'
+    · rw [if_neg hc] at hs; cases hs
 
 theorem inv_reachable {s : St} (hr : Reachable s) : Inv s := by
   induction hr with
